@@ -57,7 +57,9 @@ function installOwnerTracking(rt) {
     if (!cls || !cls.prototype || typeof cls.prototype.alloc !== "function") { inc("owner_tracking_unavailable_" + label); return; }
     const real = cls.prototype.alloc;
     cls.prototype.alloc = function (item) {
-      try { noteOwner(ownerIsItem ? item : this, item && item.ptr, recs); } catch (e) { /* observation only */ }
+      // the allocating object and the buffer object itself both count as owners: the buffer is only "gone" when
+      // neither is reachable any more (a runtime that keeps the buffer object alive some other way is not accused)
+      try { noteOwner(item, item && item.ptr, recs); if (!ownerIsItem) noteOwner(this, item && item.ptr, recs); } catch (e) { /* observation only */ }
       return real.call(this, item);
     };
   };
